@@ -7,6 +7,7 @@ import (
 	"math"
 	"math/rand"
 	"path/filepath"
+	"runtime"
 
 	"github.com/mandykoh/prism/adobergb"
 	"github.com/mandykoh/prism/displayp3"
@@ -73,8 +74,27 @@ func decodeCmd(args []string) error {
 	outDir := fs.String("out", "", "")
 	tier := fs.String("tier", "quick", "")
 	seed := fs.Int64("seed", 1, "")
+	history := fs.String("history", "decode-first", "what this process did before its first decode: decode-first | encode-first | mixed")
+	light := fs.Bool("light", false, "exact relation only for 8-bit codes, multiples of 257 and the first/last 64 codes")
+	outName := fs.String("name", "c01.ndjson", "")
 	fs.Parse(args)
-	sink, done, err := newSink(filepath.Join(*outDir, "c01.ndjson"))
+	// The 16-bit tables are built lazily on first use; what they hold must not depend on
+	// what the process did before (LazyLut: Build is a function of the table alone), nor on
+	// GOMAXPROCS at the time (set by the caller through the environment).
+	hist := fmt.Sprintf("%s/P%d", *history, runtime.GOMAXPROCS(0))
+	for i, sp := range spaces {
+		if *history == "encode-first" || (*history == "mixed" && i%2 == 0) {
+			if sp.to16 != nil {
+				sp.to16(0.5)
+				sp.to8(0.5)
+			}
+			sp.encCol(color.NRGBA64{R: 1000, G: 30000, B: 65535, A: 65535})
+		}
+		if *history == "mixed" && i%2 == 1 {
+			sp.linCol(color.NRGBA{R: 1, G: 2, B: 3, A: 255}) // 8-bit decode first, then the rest
+		}
+	}
+	sink, done, err := newSink(filepath.Join(*outDir, *outName))
 	if err != nil {
 		return err
 	}
@@ -96,7 +116,7 @@ func decodeCmd(args []string) error {
 		for c := 0; c < 64; c++ {
 			exact16[c], exact16[65535-c] = true, true
 		}
-		for i := 0; i < 2048; i++ { // stratified
+		for i := 0; i < 2048 && !*light; i++ { // stratified
 			exact16[i*32+rng.Intn(32)] = true
 		}
 	}
@@ -117,78 +137,87 @@ func decodeCmd(args []string) error {
 		j := jobs[ji]
 		sp := j.sp
 		for c := j.lo; c < j.hi; c++ {
-			var y, prev float32
-			var entry []int
-			cross := -1
-			if j.depth == 8 {
-				n := color.NRGBA{uint8(c), uint8(c), uint8(c), 255}
-				viaN, _ := sp.fromNRGB(n)
-				viaR, _ := sp.fromRGBA(color.RGBA{uint8(c), uint8(c), uint8(c), 255})
-				viaE, _ := sp.fromEnc(n)
-				if sp.from8 != nil {
-					y = sp.from8(uint8(c))
-					if c > 0 {
-						prev = sp.from8(uint8(c - 1))
+			func() {
+				defer func() {
+					if r := recover(); r != nil { // a decode that panics is an observation, not a driver failure
+						sink.put(map[string]interface{}{"kind": "decode", "space": sp.name, "depth": j.depth, "code": c, "bits": -1,
+							"prev": 0, "cross": -1, "entry": []int{-1}, "exact": false, "ylo": []int{}, "yhi": []int{}, "history": hist,
+							"panic": fmt.Sprint(r)})
 					}
-				} else {
-					y = viaN.R
-					if c > 0 {
-						p, _ := sp.fromNRGB(color.NRGBA{uint8(c - 1), 0, 0, 255})
-						prev = p.R
-					}
-				}
-				entry = []int{bits(viaN.R), bits(viaN.G), bits(viaN.B), bits(viaR.R), bits(viaR.G), bits(viaR.B), bits(viaE.R), bits(viaE.G), bits(viaE.B)}
-			} else {
-				viaE, _ := sp.fromEnc(color.NRGBA64{uint16(c), uint16(c), uint16(c), 65535})
-				viaP, _ := sp.fromEnc(color.RGBA64{uint16(c), uint16(c), uint16(c), 65535})
-				if sp.from16 != nil {
-					y = sp.from16(uint16(c))
-					if c > 0 {
-						prev = sp.from16(uint16(c - 1))
-					}
-				} else {
-					y = viaE.R
-					if c > 0 {
-						p, _ := sp.fromEnc(color.NRGBA64{uint16(c - 1), 0, 0, 65535})
-						prev = p.R
-					}
-				}
-				entry = []int{bits(viaE.R), bits(viaE.G), bits(viaE.B), bits(viaP.R), bits(viaP.G), bits(viaP.B)}
-				if c%257 == 0 {
-					if sp.from8 != nil {
-						cross = bits(sp.from8(uint8(c / 257)))
-					} else {
-						v, _ := sp.fromNRGB(color.NRGBA{uint8(c / 257), 0, 0, 255})
-						cross = bits(v.R)
-					}
-				}
-			}
-			exact := j.depth == 8 || *tier == "thorough" || exact16[c]
-			ev := map[string]interface{}{"kind": "decode", "space": sp.name, "depth": j.depth, "code": c, "bits": bits(y),
-				"prev": bits(prev), "cross": cross, "entry": entry, "exact": exact, "ylo": []int{}, "yhi": []int{}}
-			if exact {
-				lo, hi, sign, _ := numlog.Fixed(float64(y), 18)
-				if sign < 0 || math.IsNaN(float64(y)) || math.IsInf(float64(y), 0) {
-					ev["bits"] = -1 // negative / non-finite: rejected by the Zero/One/Mono clauses
-				}
-				ev["ylo"], ev["yhi"] = lo, hi
-			}
-			sink.put(ev)
-			// LineariseColor re-quantises to 16 bits
-			if exact && (j.depth == 8 || c%7 == 0 || *tier == "thorough") {
-				var out color.RGBA64
+				}()
+				var y, prev float32
+				var entry []int
+				cross := -1
 				if j.depth == 8 {
-					out = sp.linCol(color.NRGBA{uint8(c), uint8(c), uint8(c), 255})
+					n := color.NRGBA{uint8(c), uint8(c), uint8(c), 255}
+					viaN, _ := sp.fromNRGB(n)
+					viaR, _ := sp.fromRGBA(color.RGBA{uint8(c), uint8(c), uint8(c), 255})
+					viaE, _ := sp.fromEnc(n)
+					if sp.from8 != nil {
+						y = sp.from8(uint8(c))
+						if c > 0 {
+							prev = sp.from8(uint8(c - 1))
+						}
+					} else {
+						y = viaN.R
+						if c > 0 {
+							p, _ := sp.fromNRGB(color.NRGBA{uint8(c - 1), 0, 0, 255})
+							prev = p.R
+						}
+					}
+					entry = []int{bits(viaN.R), bits(viaN.G), bits(viaN.B), bits(viaR.R), bits(viaR.G), bits(viaR.B), bits(viaE.R), bits(viaE.G), bits(viaE.B)}
 				} else {
-					out = sp.linCol(color.NRGBA64{uint16(c), uint16(c), uint16(c), 65535})
+					viaE, _ := sp.fromEnc(color.NRGBA64{uint16(c), uint16(c), uint16(c), 65535})
+					viaP, _ := sp.fromEnc(color.RGBA64{uint16(c), uint16(c), uint16(c), 65535})
+					if sp.from16 != nil {
+						y = sp.from16(uint16(c))
+						if c > 0 {
+							prev = sp.from16(uint16(c - 1))
+						}
+					} else {
+						y = viaE.R
+						if c > 0 {
+							p, _ := sp.fromEnc(color.NRGBA64{uint16(c - 1), 0, 0, 65535})
+							prev = p.R
+						}
+					}
+					entry = []int{bits(viaE.R), bits(viaE.G), bits(viaE.B), bits(viaP.R), bits(viaP.G), bits(viaP.B)}
+					if c%257 == 0 {
+						if sp.from8 != nil {
+							cross = bits(sp.from8(uint8(c / 257)))
+						} else {
+							v, _ := sp.fromNRGB(color.NRGBA{uint8(c / 257), 0, 0, 255})
+							cross = bits(v.R)
+						}
+					}
 				}
-				for _, ch := range []uint16{out.R, out.G, out.B} {
-					lo, hi, _, _ := numlog.Fixed(float64(ch)/65535, 18)
-					// float64(ch)/65535 is itself rounded; widen by one unit either side
-					sink.put(map[string]interface{}{"kind": "linearise", "space": sp.name, "depth": j.depth, "code": c,
-						"out": int(ch), "alpha": int(out.A), "ylo": lo, "yhi": hi})
+				exact := j.depth == 8 || *tier == "thorough" || exact16[c]
+				ev := map[string]interface{}{"kind": "decode", "space": sp.name, "depth": j.depth, "code": c, "bits": bits(y),
+					"prev": bits(prev), "cross": cross, "entry": entry, "exact": exact, "ylo": []int{}, "yhi": []int{}, "history": hist}
+				if exact {
+					lo, hi, sign, _ := numlog.Fixed(float64(y), 18)
+					if sign < 0 || math.IsNaN(float64(y)) || math.IsInf(float64(y), 0) {
+						ev["bits"] = -1 // negative / non-finite: rejected by the Zero/One/Mono clauses
+					}
+					ev["ylo"], ev["yhi"] = lo, hi
 				}
-			}
+				sink.put(ev)
+				// LineariseColor re-quantises to 16 bits
+				if exact && !*light && (j.depth == 8 || c%7 == 0 || *tier == "thorough") {
+					var out color.RGBA64
+					if j.depth == 8 {
+						out = sp.linCol(color.NRGBA{uint8(c), uint8(c), uint8(c), 255})
+					} else {
+						out = sp.linCol(color.NRGBA64{uint16(c), uint16(c), uint16(c), 65535})
+					}
+					for _, ch := range []uint16{out.R, out.G, out.B} {
+						lo, hi, _, _ := numlog.Fixed(float64(ch)/65535, 18)
+						// float64(ch)/65535 is itself rounded; widen by one unit either side
+						sink.put(map[string]interface{}{"kind": "linearise", "space": sp.name, "depth": j.depth, "code": c,
+							"out": int(ch), "alpha": int(out.A), "ylo": lo, "yhi": hi})
+					}
+				}
+			}()
 		}
 	})
 	fmt.Printf("{\"events\":%d}\n", sink.n)
